@@ -1,6 +1,6 @@
 (* Refl/TreeProofs.v -- lemmas about subscriber tables and the flat node tree. *)
 From Coq Require Import List NArith ZArith Bool Arith Lia.
-From Muscle Require Import Refl.Base Refl.Tree.
+From Muscle Require Import Refl.Base Refl.BaseProofs Refl.Tree.
 Import ListNotations.
 
 Lemma tbl_get_put_same : forall t s c, tbl_get (tbl_put t s c) s = c.
@@ -8,4 +8,195 @@ Proof.
   induction t as [|[k c0] r IH]; intros s c; cbn.
   - now rewrite N.eqb_refl.
   - destruct (N.eqb k s) eqn:E; cbn; rewrite E; auto.
+Qed.
+
+Lemma find_node_some : forall t p n, find_node t p = Some n -> In n t /\ n_path n = p.
+Proof.
+  induction t as [|x t IH]; intros p n H; cbn in H; [discriminate|].
+  destruct (path_eqb (n_path x) p) eqn:E.
+  - inversion H; subst. apply path_eqb_eq in E. split; [now left|auto].
+  - apply IH in H as [H1 H2]. split; [now right|auto].
+Qed.
+
+Lemma get_child_path : forall t x k c, get_child t x k = Some c -> n_path c = x ++ [k].
+Proof. intros t x k c H. unfold get_child in H. now apply find_node_some in H. Qed.
+
+Lemma children_in : forall t x c, In c (children t x) <-> In c t /\ exists k, n_path c = x ++ [k].
+Proof.
+  intros t x c. unfold children. rewrite filter_In. now rewrite is_child_spec.
+Qed.
+
+(* ------------------------------------------------------------------ well-formed trees *)
+
+Definition wf_tree (t : tree) : Prop :=
+  NoDup (map n_path t)
+  /\ (forall n, In n t -> n_path n <> [])
+  /\ (forall n q r, In n t -> n_path n = q ++ r -> q <> [] -> exists n', In n' t /\ n_path n' = q).
+
+Lemma find_node_none : forall t p, find_node t p = None <-> forall n, In n t -> n_path n <> p.
+Proof.
+  induction t as [|x t IH]; intros p; cbn.
+  - split; [intros _ n []|auto].
+  - destruct (path_eqb (n_path x) p) eqn:E.
+    + apply path_eqb_eq in E. split; [discriminate|]. intros H. exfalso. apply (H x); auto.
+    + apply path_eqb_neq in E. rewrite IH. split.
+      * intros H n [Hn|Hn]; [now subst|now apply H].
+      * intros H n Hn. apply H. now right.
+Qed.
+
+Lemma node_eq_by_path : forall t n n', NoDup (map n_path t) -> In n t -> In n' t -> n_path n = n_path n' -> n = n'.
+Proof.
+  induction t as [|x t IH]; intros n n' Hnd Hn Hn' Hp; [contradiction|].
+  cbn in Hnd. inversion Hnd as [|? ? Hx Hnd']; subst.
+  destruct Hn as [Hn|Hn], Hn' as [Hn'|Hn'].
+  - congruence.
+  - subst. exfalso. apply Hx. rewrite Hp. now apply in_map.
+  - subst. exfalso. apply Hx. rewrite <- Hp. now apply in_map.
+  - now apply IH.
+Qed.
+
+Lemma find_node_in : forall t n, NoDup (map n_path t) -> In n t -> find_node t (n_path n) = Some n.
+Proof.
+  intros t n Hnd Hn. destruct (find_node t (n_path n)) as [n'|] eqn:E.
+  - apply find_node_some in E as [E1 E2]. f_equal. now apply (node_eq_by_path t).
+  - exfalso. rewrite find_node_none in E. now apply (E n).
+Qed.
+
+Lemma has_node_spec : forall t p, has_node t p = true <-> exists n, In n t /\ n_path n = p.
+Proof.
+  intros t p. unfold has_node. destruct (find_node t p) as [n|] eqn:E.
+  - apply find_node_some in E. split; eauto.
+  - split; [discriminate|]. intros [n [Hn Hp]]. rewrite find_node_none in E. exfalso. now apply (E n).
+Qed.
+
+Lemma children_nodup : forall t x, NoDup (map n_path t) -> NoDup (map n_path (children t x)).
+Proof.
+  intros t x. unfold children. induction t as [|n t IH]; intros Hnd; cbn; [constructor|].
+  cbn in Hnd. inversion Hnd as [|? ? Hn Hnd']; subst.
+  destruct (is_child x (n_path n)); auto. cbn. constructor; auto.
+  intros H. apply Hn. apply in_map_iff in H as [n' [H1 H2]]. apply filter_In in H2 as [H2 _].
+  rewrite <- H1. now apply in_map.
+Qed.
+
+Lemma get_child_in : forall t x k c, NoDup (map n_path t) -> In c t -> n_path c = x ++ [k] -> get_child t x k = Some c.
+Proof. intros t x k c Hnd Hc Hp. unfold get_child. rewrite <- Hp. now apply find_node_in. Qed.
+
+(* ------------------------------------------------------------------ subscriber tables *)
+
+Definition tbl_ok (tb : subtbl) : Prop := NoDup (map fst tb) /\ forall k c, In (k, c) tb -> (0 < c)%N.
+
+Lemma tbl_get_put : forall tb s c s', tbl_get (tbl_put tb s c) s' = if N.eqb s s' then c else tbl_get tb s'.
+Proof.
+  induction tb as [|[k c0] r IH]; intros s c s'; cbn.
+  - destruct (N.eqb s s'); reflexivity.
+  - destruct (N.eqb k s) eqn:E; cbn.
+    + apply N.eqb_eq in E; subst. destruct (N.eqb s s'); reflexivity.
+    + rewrite IH. destruct (N.eqb k s') eqn:E'; auto.
+      apply N.eqb_eq in E'; subst. now rewrite N.eqb_sym, E.
+Qed.
+
+Lemma tbl_get_absent : forall tb s, ~ In s (map fst tb) -> tbl_get tb s = 0%N.
+Proof.
+  induction tb as [|[k c0] r IH]; intros s H; cbn; auto.
+  destruct (N.eqb k s) eqn:E.
+  - apply N.eqb_eq in E; subst. exfalso. apply H. now left.
+  - apply IH. intros H'. apply H. now right.
+Qed.
+
+Lemma tbl_get_remove : forall tb s s', NoDup (map fst tb) ->
+  tbl_get (tbl_remove tb s) s' = if N.eqb s s' then 0%N else tbl_get tb s'.
+Proof.
+  induction tb as [|[k c0] r IH]; intros s s' Hnd; cbn.
+  - destruct (N.eqb s s'); reflexivity.
+  - cbn in Hnd. inversion Hnd as [|? ? Hk Hnd']; subst.
+    destruct (N.eqb k s) eqn:E; cbn.
+    + apply N.eqb_eq in E; subst. destruct (N.eqb s s') eqn:E'; auto.
+      apply N.eqb_eq in E'; subst. now apply tbl_get_absent.
+    + rewrite IH by auto. destruct (N.eqb k s') eqn:E'; auto.
+      apply N.eqb_eq in E'; subst. now rewrite N.eqb_sym, E.
+Qed.
+
+Lemma tbl_put_keys : forall tb s c k, In k (map fst (tbl_put tb s c)) <-> k = s \/ In k (map fst tb).
+Proof.
+  induction tb as [|[k0 c0] r IH]; intros s c k; cbn.
+  - intuition.
+  - destruct (N.eqb k0 s) eqn:E; cbn.
+    + apply N.eqb_eq in E; subst. intuition.
+    + rewrite IH. intuition.
+Qed.
+
+Lemma tbl_put_ok : forall tb s c, tbl_ok tb -> (0 < c)%N -> tbl_ok (tbl_put tb s c).
+Proof.
+  induction tb as [|[k0 c0] r IH]; intros s c [Hnd Hpos] Hc; cbn.
+  - split; [repeat constructor; intros []|]. intros k c' [H|[]]. now inversion H; subst.
+  - cbn in Hnd. inversion Hnd as [|? ? Hk Hnd']; subst.
+    assert (Hr : tbl_ok r) by (split; auto; intros k c' H; apply (Hpos k c'); now right).
+    destruct (N.eqb k0 s) eqn:E.
+    + apply N.eqb_eq in E; subst. split; [cbn; now constructor|].
+      intros k c' [H|H]; [now inversion H; subst|apply (Hpos k c'); now right].
+    + destruct (IH s c Hr Hc) as [Hnd2 Hpos2]. split.
+      * cbn. constructor; auto. rewrite tbl_put_keys. intros [H|H]; [|contradiction].
+        subst. now rewrite N.eqb_refl in E.
+      * intros k c' [H|H]; [inversion H; subst; apply (Hpos k c'); now left|now apply (Hpos2 k c')].
+Qed.
+
+Lemma tbl_remove_keys : forall tb s k, In k (map fst (tbl_remove tb s)) -> In k (map fst tb).
+Proof.
+  induction tb as [|[k0 c0] r IH]; intros s k; cbn; auto.
+  destruct (N.eqb k0 s); cbn; intuition eauto.
+Qed.
+
+Lemma tbl_remove_ok : forall tb s, tbl_ok tb -> tbl_ok (tbl_remove tb s).
+Proof.
+  induction tb as [|[k0 c0] r IH]; intros s [Hnd Hpos]; cbn; [split; auto|].
+  cbn in Hnd. inversion Hnd as [|? ? Hk Hnd']; subst.
+  assert (Hr : tbl_ok r) by (split; auto; intros k c' H; apply (Hpos k c'); now right).
+  destruct (N.eqb k0 s); auto.
+  destruct (IH s Hr) as [Hnd2 Hpos2]. split.
+  - cbn. constructor; auto. intros H. apply Hk. now apply tbl_remove_keys in H.
+  - intros k c' [H|H]; [inversion H; subst; apply (Hpos k c'); now left|now apply (Hpos2 k c')].
+Qed.
+
+Lemma tbl_get_pos_in : forall tb s, (0 < tbl_get tb s)%N -> In s (map fst tb).
+Proof.
+  intros tb s H. destruct (in_dec N.eq_dec s (map fst tb)) as [|Hn]; auto.
+  rewrite (tbl_get_absent tb s Hn) in H. lia.
+Qed.
+
+Lemma tbl_in_get_pos : forall tb s, tbl_ok tb -> In s (map fst tb) -> (0 < tbl_get tb s)%N.
+Proof.
+  induction tb as [|[k0 c0] r IH]; intros s [Hnd Hpos] H; [contradiction|]. cbn.
+  cbn in Hnd. inversion Hnd as [|? ? Hk Hnd']; subst.
+  destruct (N.eqb k0 s) eqn:E.
+  - apply (Hpos k0 c0). now left.
+  - destruct H as [H|H]; [cbn in H; subst; now rewrite N.eqb_refl in E|].
+    apply IH; auto. split; auto. intros k c' H'. apply (Hpos k c'). now right.
+Qed.
+
+(* the new count computed by GetDataNodeSubscribersTableFromPool *)
+Definition adjusted_count (cur : N) (delta : Z) : N :=
+  if Z.eqb delta 0 then cur
+  else if Z.leb 0 delta then u32 (cur + Z.to_N delta)
+  else let d := Z.to_N (Z.opp delta) in if N.leb d cur then (cur - d)%N else 0%N.
+
+Lemma tbl_adjust_get : forall tb s delta s', tbl_ok tb ->
+  tbl_get (tbl_adjust tb s delta) s' = if N.eqb s s' then adjusted_count (tbl_get tb s) delta else tbl_get tb s'.
+Proof.
+  intros tb s delta s' [Hnd Hpos]. unfold tbl_adjust, adjusted_count.
+  destruct (Z.eqb delta 0) eqn:E0.
+  - destruct (N.eqb s s') eqn:E; auto. apply N.eqb_eq in E; now subst.
+  - set (nw := if Z.leb 0 delta then u32 (tbl_get tb s + Z.to_N delta)
+               else if N.leb (Z.to_N (- delta)) (tbl_get tb s) then (tbl_get tb s - Z.to_N (- delta))%N else 0%N).
+    destruct (N.ltb 0 nw) eqn:Epos.
+    + now rewrite tbl_get_put.
+    + rewrite tbl_get_remove by auto. destruct (N.eqb s s'); auto.
+      apply N.ltb_ge in Epos. lia.
+Qed.
+
+Lemma tbl_adjust_ok : forall tb s delta, tbl_ok tb -> tbl_ok (tbl_adjust tb s delta).
+Proof.
+  intros tb s delta H. unfold tbl_adjust. destruct (Z.eqb delta 0); auto.
+  match goal with |- context [N.ltb 0 ?x] => destruct (N.ltb 0 x) eqn:E end.
+  - apply tbl_put_ok; auto. now apply N.ltb_lt.
+  - now apply tbl_remove_ok.
 Qed.
